@@ -68,7 +68,11 @@ def run_one(name, edits, patch, reverse, props, tier, verbose, unit_tests=False)
             r = subprocess.run(["git", "apply", "--whitespace=nowarn"] + (["-R"] if reverse else []) + [patch], cwd=repo,
                                capture_output=True, text=True)
             if r.returncode:
-                raise RuntimeError("patch does not apply: " + r.stderr[-300:])
+                # /repo may have moved on since the patch was taken: retry with fuzz
+                r2 = subprocess.run(["patch", "-p1", "-F3", "--no-backup-if-mismatch"] + (["-R"] if reverse else []) + ["-i", patch], cwd=repo,
+                                    capture_output=True, text=True)
+                if r2.returncode:
+                    raise RuntimeError("patch does not apply: " + r.stderr[-300:] + r2.stdout[-300:])
         else:
             apply_edits(repo, edits)
         os.makedirs(bdir, exist_ok=True)
